@@ -16,7 +16,7 @@ func propC01() Property {
 		ID: "C01",
 		Explanation: "R1 (who-may-deliver): the application callbacks are invoked from one dispatcher; FromApp only under isAdminMessageType(MsgType of that message)=false; every call path into the dispatcher either passes the sequence gate with both the too-low and the too-high comparison switched on, or is confined (by dominating bytes.Equal guards on MsgType, followed up the static callers) to administrative message types. Together: FromApp ⇒ MsgSeqNum = next expected at the call. " +
 			"R2: after a fully gated verification succeeds, every non-failing path to return advances the expected inbound number exactly once and none advances before it; no function advances twice on one path; the wrapper states advance only through the in-session handler. " +
-			"R3: the too-low/too-high errors are produced exactly under seq < expected / seq > expected, with seq = MsgSeqNum(34) of the message and expected = the store's next inbound number. R4: the expected number is set (not incremented) only forward, to NewSeqNo(36), under NewSeqNo > expected — or by the explicit operator API. R5: stash drain at the expected number (shared with C04-R5). R2(d) since D18 has no exception for the reject processor: a rejected message consumes the expected number only on a path where both sequence comparisons came out nil for it. R6 (shared with C11): the handlers read each field from the section the parser files it in. R7/R8 (shared with C07): the store is reset only for a configured or negotiated reason, and a received ResetSeqNumFlag resets only when it is Y and no reset was sent — otherwise the expected number would go back to 1 without an explicit reset and delivered messages would be delivered again.",
+			"R3: the too-low/too-high errors are produced exactly under seq < expected / seq > expected, with seq = MsgSeqNum(34) of the message and expected = the store's next inbound number. R4: the expected number is set (not incremented) only forward, to NewSeqNo(36), under NewSeqNo > expected — or by the explicit operator API. R5: stash drain at the expected number (shared with C04-R5). R2(d) since D18 has no exception for the reject processor: a rejected message consumes the expected number only on a path where both sequence comparisons came out nil for it. R6 (shared with C11): the handlers read each field from the section the parser files it in. R7/R8 (shared with C07): the store is reset only for a configured or negotiated reason, and a received ResetSeqNumFlag resets only when it is Y and no reset was sent — otherwise the expected number would go back to 1 without an explicit reset and delivered messages would be delivered again. R9: the too-high comparison that licenses an advance was made after the last reset/refresh of the store on that path; every call of the reject processor returns its result (a handler never carries on after handing the message to it).",
 		NotDecided: "the arithmetic of histories (that replays interleaved with live traffic leave no hole); a caller-plus-callee double advance across functions (the Logon error arms are only distinguishable by the dynamic type of an error); behaviour when the application returns errors.",
 		Rules: []RuleDef{
 			{ID: "C01-R1", Desc: "callback gate: who may reach FromApp/FromAdmin", Min: 6, Run: c01R1},
@@ -27,6 +27,7 @@ func propC01() Property {
 			{ID: "C01-R6", Desc: "session handlers read each field from the section the parser files it in (= C11-R7)", Min: 20, Run: sectionAccessRule},
 			{ID: "C01-R7", Desc: "the expected number goes back to 1 only through a configured or negotiated reset (= C07-R1)", Min: 3, Run: c07R1},
 			{ID: "C01-R8", Desc: "a received reset flag resets only when it is Y and no reset was sent (= C07-R3)", Min: 2, Run: c07R3},
+			{ID: "C01-R9", Desc: "the comparison licensing an advance is fresh; one advance per message counting callees", Min: 2, Run: c01R9},
 		},
 	}
 }
